@@ -278,6 +278,14 @@ def check_class(ctx, R, cls, rules=None):
                             x.kind == 'LOOPEXIT' and x.a == 0 and x.c == 'cond' and fieldtag in ((x.x or {}).get('iter_tags') or ())
                             for x in evs)
                     if not ok:
+                        # ... or the released list is a local that only explicit loops fill (tags empty) and one of the
+                        # filling loops ran zero times on this path
+                        ok = any(x.kind == 'REL' and not x.b and isinstance((x.x or {}).get('arg'), ast.Name) for x in evs) and any(
+                            x.kind == 'LOOPEXIT' and x.a == 0 and x.c == 'cond' and (x.x or {}).get('node') is not None and any(
+                                isinstance(y, ast.Call) and isinstance(y.func, ast.Attribute) and y.func.attr in ('append', 'extend')
+                                and isinstance(y.func.value, ast.Name) for y in ast.walk(x.x['node']))
+                            for x in evs)
+                    if not ok:
                         # field-to-field transfer: the taken value was moved into another container
                         ok = any(x.kind == 'ST' and has(x.b, taketag) and x.a != e.a for x in evs) and \
                             any(x.kind == 'REL' for x in evs)
